@@ -817,3 +817,38 @@ M c13_sequence_skips C13 'C13.2c' 'sequence advances by two' src/index/write.rs 
 '        self.sequence += 1;' '        self.sequence += 2;'
 M c13_subdir_from_written C13 'C13.2d' 'subdirectory computed from hunks_written' src/index/write.rs \
 '                .create_dir(&subdir_relpath(self.sequence))' '                .create_dir(&subdir_relpath(self.hunks_written as u32))'
+# ---- round 4 additions
+M c08_after_taken C08 'C08.9' 'resume point taken and not restored when a hunk is skipped' src/index/mod.rs \
+'            if let Some(ref after) = self.after {
+                if let Some(last) = entries.last() {
+                    if last.apath <= *after {
+                        continue;
+                    }
+                }' \
+'            if let Some(ref after) = self.after.take() {
+                if let Some(last) = entries.last() {
+                    if last.apath <= *after {
+                        continue;
+                    }
+                }
+                self.after = Some(after.clone());'
+M c09_count_vs_last C09 'C09.2b' 'hunk count compared with the last hunk number only' src/validate.rs \
+'                            if !hunks.iter().copied().map(u64::from).eq(0..expected) {' \
+'                            if hunks.last().copied().map(u64::from).map_or(0, |l| l + 1) != expected {'
+M c10_band_left_on_error C08,C10 'C08.1b|C10.3i' 'the stitcher leaves the band at the first unreadable hunk' src/index/stitch.rs \
+'                                self.monitor.error(err);
+                                continue;
+                            }
+                        };
+                        if let Some(last_apath)' \
+'                                self.monitor.error(err);
+                                self.state = State::AfterBand(*band_id);
+                                continue;
+                            }
+                        };
+                        if let Some(last_apath)'
+M c12_prefix_trim_matches C12 'C12.1c' 'is_prefix_of strips the prefix with trim_start_matches' src/apath.rs \
+'                a.0.starts_with(&self.0)
+                    && (self.0.ends_with('"'"'/'"'"') || a.0.as_bytes()[len] == b'"'"'/'"'"')' \
+'                a.0.starts_with(&self.0)
+                    && (self.0.ends_with('"'"'/'"'"') || a.0.trim_start_matches(self.0.as_str()).starts_with('"'"'/'"'"'))'
